@@ -74,10 +74,11 @@ def build (left : Bool) : Nat → Sym → List Prod → Option (PTree × List Pr
       if left then (sons p.2 rest).map fun r => (.node (.var v) r.1, r.2)
       else (sons p.2.reverse rest).map fun r => (.node (.var v) r.1.reverse, r.2)
 
-/-- `get_parse_tree(word, left)`: `none` = RecursionError, `some none` = NotParsableException -/
+/-- `get_parse_tree(word, left)`: `none` = RecursionError, `some none` = NotParsableException
+(in particular on a grammar without start symbol, whatever the word) -/
 def parse (G : CFG) (w : List String) (left : Bool) (fuel : Nat) : Option (Option PTree) :=
   match G.start with
-  | none => none
+  | none => some none
   | some s =>
     match rdSub G left fuel w [.var s] with
     | none => none
